@@ -3,8 +3,8 @@ import Enc.Lemmas.ProtoRoundTripZero
 # C03: `Unmarshal(Marshal(v))` reproduces `v` — the model's own decoder inverts the model's encoder
 
 Universe `tyOK` (see `ProtoWireRec`): message types whose fields are bool / `int int32 int64 uint uint32 uint64`
-(plain, zigzag32/64 on the signed ones, fixed32/64 on `uint32/uint64`) / `float32 float64` / `string` / `[]byte` /
-nested messages; optional fields `*T` (`T` scalar other than `[]byte`, or a message); repeated fields `[]T` (`T` a
+(plain, zigzag32/64 on the signed ones, fixed32/64 on `uint32/uint64`, sfixed32/64 = fixed32/64 on `int32/int64`) /
+`float32 float64` / `string` / `[]byte` / nested messages; optional fields `*T` (`T` scalar other than `[]byte`, or a message); repeated fields `[]T` (`T` a
 scalar, `[]byte` or a message).  Field numbers 1 … 65535, distinct.
 
   * `dec_one / dec_fields / dec_fieldsR`   mutual induction over the type: one written field / the first encoder loop
@@ -439,7 +439,8 @@ theorem unmarshal_marshal_agr (fs : Fields) (vs : Vals)
     · rw [← hc]; exact hdec
 
 /-- **C03, plain messages** (literal equality).  Universe: message types whose fields are bool / integer
-(`int int32 int64 uint uint32 uint64`; plain, zigzag32/64 on signed, fixed32/64 on `uint32/uint64`) /
+(`int int32 int64 uint uint32 uint64`; plain, zigzag32/64 on signed, fixed32/64 on `uint32/uint64`, sfixed32/64 =
+fixed32/64 on `int32/int64`) /
 `float32 float64` / `string` / `[]byte` / nested messages of the same kind (`tyOK` + `plainTy`: no `*T`, no `[]T`);
 values well typed (`hasType`: shape, integer ranges, float widths); output shorter than 2^64 bytes.
 `Unmarshal(Marshal(v))` returns exactly `v` — also when every field is zero (nothing on the wire, the target keeps
